@@ -115,6 +115,8 @@ let install register =
       two_runs (run opsa dsa) (run opsb dsb)
     | _ -> "BADARGS");
   register "purem" (function _ -> "OK SAME");
+  (* write() returns the length of its slice (lzma1_run_exact) *)
+  register "huge1" (function _ :: n :: _ -> "OK " ^ n | _ -> "BADARGS");
   register "lzexp" (function o :: expected :: _seed :: ops :: ds :: _ ->
       let (dict, nice, normal, bt4) = parse_opts o in
       let expected = if expected = "none" then None else Some (zs expected) in
